@@ -884,6 +884,11 @@ func (lw *linWorld) exec(cl *linClient, idx int, t linTmpl) {
 			o.Sess, o.Call, o.Ret = s.ID, st, linInf
 			lw.ops = append(lw.ops, o)
 		}
+		if !t.Abrupt && (s.NetC != nil || s.WSC != nil) {
+			// over a network transport what is still queued for a client when the router
+			// closes the connection after GOODBYE may never be written
+			lw.blind = append(lw.blind, s.ID)
+		}
 		if t.Abrupt {
 			lw.blind = append(lw.blind, s.ID)
 			s.CloseTransport()
